@@ -673,33 +673,80 @@ func addMiscIntrinsics(m map[string]intrinsicFn) {
 		return nil
 	}
 
-	// base64 as uninterpreted functions on symbolic input
+	// base64: concrete input is coded with the receiver's real alphabet/padding; symbolic input goes
+	// through uninterpreted functions per encoding kind, with the round trip dec_k(enc_k(x)) = x
+	// applied syntactically (decoding something encoded with ANOTHER alphabet stays unconstrained)
+	b64kind := func(recv value) (string, *base64.Encoding) {
+		p, _ := recv.(*value)
+		if p == nil {
+			return "std", base64.StdEncoding
+		}
+		st, ok := (*p).(structure)
+		if !ok || len(st) < 3 {
+			return "std", base64.StdEncoding
+		}
+		url := false
+		if arr, ok := st[0].(array); ok && len(arr) == 64 {
+			if c, ok := arr[62].(uint64); ok && c == '-' {
+				url = true
+			}
+		}
+		raw := false
+		if pc, ok := st[2].(int64); ok && pc == -1 {
+			raw = true
+		}
+		switch {
+		case url && raw:
+			return "rawurl", base64.RawURLEncoding
+		case url:
+			return "url", base64.URLEncoding
+		case raw:
+			return "rawstd", base64.RawStdEncoding
+		}
+		return "std", base64.StdEncoding
+	}
 	m["(*encoding/base64.Encoding).DecodeString"] = func(fr *frame, a []value) value {
 		r := fr.r
+		kind, enc := b64kind(a[0])
 		if s, ok := a[1].(string); ok {
-			b, err := base64.StdEncoding.DecodeString(s)
+			b, err := enc.DecodeString(s)
 			if err != nil {
 				return tuple{bytesToValues(string(b)), r.newError(err.Error())}
 			}
 			return tuple{bytesToValues(string(b)), iface{}}
 		}
 		st := a[1].(*sym).t
-		r.declareOnce("b64_ok", "(declare-fun b64_ok (String) Bool)")
-		r.declareOnce("b64_dec", "(declare-fun b64_dec (String) String)")
-		if r.branch(boolSym("(b64_ok " + st + ")")) {
-			return tuple{&sym{"(b64_dec " + st + ")", SBytes}, iface{}}
+		if pre := "(b64_enc_" + kind + " "; strings.HasPrefix(st, pre) && strings.HasSuffix(st, ")") {
+			return tuple{&sym{st[len(pre) : len(st)-1], SBytes}, iface{}}
+		}
+		r.declareOnce("b64_ok_"+kind, "(declare-fun b64_ok_"+kind+" (String) Bool)")
+		r.declareOnce("b64_dec_"+kind, "(declare-fun b64_dec_"+kind+" (String) String)")
+		if r.branch(boolSym("(b64_ok_" + kind + " " + st + ")")) {
+			return tuple{&sym{"(b64_dec_" + kind + " " + st + ")", SBytes}, iface{}}
 		}
 		return tuple{[]value{}, r.newError("illegal base64 data")}
 	}
 	m["(*encoding/base64.Encoding).EncodeToString"] = func(fr *frame, a []value) value {
 		r := fr.r
+		kind, enc := b64kind(a[0])
 		if bs, ok := a[1].([]value); ok {
 			if s, ok := goBytes(bs); ok {
-				return base64.StdEncoding.EncodeToString([]byte(s))
+				return enc.EncodeToString([]byte(s))
 			}
 		}
-		r.declareOnce("b64_enc", "(declare-fun b64_enc (String) String)")
-		return strSym("(b64_enc " + strTerm(a[1]) + ")")
+		r.declareOnce("b64_enc_"+kind, "(declare-fun b64_enc_"+kind+" (String) String)")
+		x := strTerm(a[1])
+		t := "(b64_enc_" + kind + " " + x + ")"
+		if _, ok := r.stash["b64len:"+t]; !ok {
+			// the length of an encoding is a function of the input length
+			r.stash["b64len:"+t] = true
+			if kind == "std" || kind == "url" {
+				r.assertPC("(= (str.len " + t + ") (* 4 (div (+ (str.len " + x + ") 2) 3)))")
+			} else {
+				r.assertPC("(= (str.len " + t + ") (div (+ (* 4 (str.len " + x + ")) 2) 3))")
+			}
+		}
+		return strSym(t)
 	}
 
 	// os: environment comes from the harness (verifSetenv); default empty
